@@ -20,7 +20,7 @@ CHECKS = {
  "C05": ("bounded exhaustive history enumeration (differential oracle) + explicit-state exploration: one decodable payload per layout x every 2-split, every 3-split (<=34 / <=80 chars), every composition of a 12-char payload into 2..9 parts x 7 ids x 5 prior histories x 5 noise patterns x decode; BFS of the real parser to closure with a reference monitor as step oracle; 255-fragment chains",
          "Each fragmented transmission is compared with the same payload sent unfragmented to a fresh parser (payload bytes, decoded message, error class), every non-final result must be Incomplete with its own fields, and Into<Option>/Into<Result> are checked on lock-stepped parsers; the BFS covers 'whatever the parser processed before' to closure over its alphabet.",
          "Payload content is opaque to reassembly (checked by a one-deviation sweep); groups of >9 fragments only in order (255-chain).", "DESIGN.md §2.2, §3.2, §4 C05"),
- "C06": ("explicit-state model checking of the real AisParser: BFS to closure over an 87-letter alphabet (n in 2..5, every k, 5 sequence ids, decodable / undecodable / rejected lines) with state = (parser Debug, reference monitor), run twice; plus every history of length <=5 (6) over a 22-letter core alphabet judged by the C06 statement itself (no monitor); 255-fragment u8-boundary chains",
+ "C06": ("explicit-state model checking of the real AisParser: BFS to closure over an 87-letter alphabet (n in 2..5, every k, 5 sequence ids, decodable / undecodable / rejected lines) with state = (parser Debug, reference monitor), run twice; plus every history of length <=5 (6) over a 22-letter core alphabet judged by the C06 statement itself (no monitor); 255-fragment u8-boundary chains, group sizes up to 255 x 10 ids with every single deviation, all 257^2 id pairs, 600-line soak scripts; plus a TLA+ model (models/Reassembly.tla) verified by TLC against the C06 history predicate, ALL of whose maximal behaviours (12^4 quick / 12^5 thorough) are replayed on the real parser in each build (trace conformance)",
          "The reachable state set is finite for a finite alphabet, so closure means every finite history over the alphabet is covered; every transition is executed on a real parser re-driven along the shortest witness history. The history predicate shares no code with the monitor and validates it on every history up to the depth bound.",
          "Letters outside the alphabet (other ids, n>5 except the directed 255-chain) are not explored; the monitor is mine.", "DESIGN.md §2.2, §3.2, §4 C06"),
  "C07": ("bounded exhaustive input enumeration vs. reference field extractor: complete grammar product (15 M lines; thorough 100+ M), every field slot replaced by every short string over the structural alphabet, explicit-state BFS of the real parser (payload of a completed group = concatenation), all 65536 talker byte pairs, all report-type triples over a 27-byte alphabet (thorough: all 2^24), every accepted single-byte mutant of ~45 seeds, all 256 first payload bytes; decode on/off differential",
@@ -86,7 +86,9 @@ def main():
                    enable="n/a - checks build /repo's working tree unmodified, three times (features std / alloc / none)",
                    baseline_off_cmd="cd /repo && cargo test --workspace --no-fail-fast --offline",
                    source_commits=[], add_only=True),
-        engines=[dict(name="aisverif", path="/verif/harness", serves_properties=sorted(CHECKS),
+        engines=[dict(name="tlc+conformance", path="/verif/models", serves_properties=["C06"],
+                      kind_free_text="TLA+ model of the reassembly protocol checked by TLC (invariant = the C06 history predicate, action property = no trace); every maximal behaviour from the TLC state dump is replayed against the real AisParser (aisverif conform)"),
+                 dict(name="aisverif", path="/verif/harness", serves_properties=sorted(CHECKS),
                       kind_free_text="hand-rolled bounded-exhaustive explorer in Rust: index-addressable input spaces enumerated completely against table-driven reference models, plus explicit-state BFS-to-closure and all-histories-to-depth-d exploration of the real AisParser; python3 driver ./check")],
         checks=checks, not_applicable=na,
         notes="All checks rebuild the harness against /repo's current working tree (cargo, offline). Known findings: /verif/known-findings.txt.")
